@@ -222,6 +222,53 @@ def analyse(src: Source) -> List[Report]:
                        f"`{norm(u_)}` converts the characters of the matched string `{norm(loop_.iter)}` one by one: an index of two digits "
                        f"becomes two indices")
     rep.ob("R10.4-indices-whole-tokens", True, Loc(FTM, 0, "factor_type_maps"), "index sets are converted token by token", "")
+    # every line of a factor file is registered: a line may be skipped because of what IT is (comment, blank), never because
+    # of what earlier lines were (an index set shared by two factor types is two factors)
+    from ..guards import path_conditions as _pc
+    n_loops = 0
+    _MUT = ("add", "append", "update", "extend", "insert", "setdefault", "discard", "remove", "pop", "clear")
+    for fn_ in [f_ for f_ in ast.walk(fmod.tree) if isinstance(f_, ast.FunctionDef)] if fmod else []:
+        opened_ = {w.optional_vars.id for x in ast.walk(fn_) if isinstance(x, ast.With) for w in x.items
+                   if isinstance(w.optional_vars, ast.Name) and isinstance(w.context_expr, ast.Call) and norm(w.context_expr.func) == "open"}
+        for loop_ in [x for x in ast.walk(fn_) if isinstance(x, ast.For) and isinstance(x.iter, ast.Name) and x.iter.id in opened_]:
+            n_loops += 1
+            inner_ = [y for st in loop_.body for y in ast.walk(st)]
+            acc_ = set()
+            for y in inner_:
+                if isinstance(y, ast.Call) and isinstance(y.func, ast.Attribute) and y.func.attr in _MUT:
+                    acc_.add(norm(y.func.value))
+                elif isinstance(y, ast.AugAssign):
+                    acc_.add(norm(y.target))
+                elif isinstance(y, ast.Assign):
+                    acc_.update(norm(t.value) for t in y.targets if isinstance(t, ast.Subscript))
+            assigned_in_loop_ = {t.id for y in inner_ if isinstance(y, ast.Assign) for t in y.targets if isinstance(t, ast.Name)}
+            acc_ -= assigned_in_loop_          # a per-line local that is filled and used is not memory of earlier lines
+            changed_ = True
+            derived_ = set()
+            while changed_:
+                changed_ = False
+                for y in inner_:
+                    if isinstance(y, ast.Assign) and len(y.targets) == 1 and isinstance(y.targets[0], ast.Name) and y.targets[0].id not in derived_:
+                        if any(norm(z) in acc_ or (isinstance(z, ast.Name) and z.id in derived_) for z in ast.walk(y.value)):
+                            derived_.add(y.targets[0].id)
+                            changed_ = True
+            for y in inner_:
+                if not isinstance(y, ast.Continue):
+                    continue
+                conds_ = _pc(loop_.body, y) or []
+                bad_ = []
+                for c_ in conds_:
+                    try:
+                        tree_ = ast.parse(c_, mode="eval")
+                    except SyntaxError:
+                        continue
+                    if any(norm(z) in acc_ or (isinstance(z, ast.Name) and z.id in derived_) for z in ast.walk(tree_)):
+                        bad_.append(c_)
+                rep.ob("R10.4-line-skipped-on-its-own-content", not bad_, Loc(FTM, y.lineno, fn_.name), f"continue under {conds_}",
+                       f"the line is skipped depending on {bad_}, which is filled from earlier lines ({sorted(acc_)}): a factor whose index set "
+                       f"(or other key) occurred before is lost -- shared index sets across factor types are legitimate")
+    if not n_loops:
+        raise AnalysisError("no loop over the lines of an opened factor file found in factor_type_maps")
     rep.unit("config_files", len(cfgs))
     rep.expect_min("R10.1-excluded-is-nearby", 1)
     rep.expect_min("R10.1-bounding-is-complement", 1)
